@@ -26,30 +26,30 @@ import (
 // (exactly-one outcome, conservation, close) and C07 (wire stream) read its monitors.
 
 type echoCfg struct {
-	version    int
-	callers    int
-	perCaller  int
-	timeout    time.Duration
-	coalesce   time.Duration
-	numConns   int
-	pLate      int // percent of requests answered after the driver's timeout
-	pNever     int // percent never answered until the end of the scenario
-	pErrFrame  int // percent answered with an ERROR frame instead of rows
-	window     int // answer in windows of this many requests ...
-	windowMode string // ... "reverse" or "shuffle" ("" = in order)
-	pPreCancel int // percent of calls with an already-cancelled context
-	pCancel    int // percent of calls cancelled at a random later point
-	pDeadline  int // percent of calls with a context deadline
-	pBadValue  int // percent of calls whose frame cannot be built (prepared statement with an unmarshalable value)
-	writeCutAt int64 // driver-side write cut at this stream offset on the data connection (-1 = none)
-	cutErrOnly bool
-	nodeCloseAfter int // node closes the data connection mid-frame after this many answers (-1 = none)
+	version           int
+	callers           int
+	perCaller         int
+	timeout           time.Duration
+	coalesce          time.Duration
+	numConns          int
+	pLate             int    // percent of requests answered after the driver's timeout
+	pNever            int    // percent never answered until the end of the scenario
+	pErrFrame         int    // percent answered with an ERROR frame instead of rows
+	window            int    // answer in windows of this many requests ...
+	windowMode        string // ... "reverse" or "shuffle" ("" = in order)
+	pPreCancel        int    // percent of calls with an already-cancelled context
+	pCancel           int    // percent of calls cancelled at a random later point
+	pDeadline         int    // percent of calls with a context deadline
+	pBadValue         int    // percent of calls whose frame cannot be built (prepared statement with an unmarshalable value)
+	writeCutAt        int64  // driver-side write cut at this stream offset on the data connection (-1 = none)
+	cutErrOnly        bool
+	nodeCloseAfter    int // node closes the data connection mid-frame after this many answers (-1 = none)
 	closeSessionAfter int // Session.Close is called concurrently after this many completed calls (-1 = at the end)
-	intensity  int
-	reusePhase int // sequential requests issued after the late answers were delivered
-	bigFrames  bool
-	padTokens  bool
-	seed       int64
+	intensity         int
+	reusePhase        int // sequential requests issued after the late answers were delivered
+	bigFrames         bool
+	padTokens         bool
+	seed              int64
 }
 
 type echoCall struct {
@@ -111,13 +111,13 @@ type wireProblem struct {
 
 // streamObs implements gocql.StreamObserver and counts starts / ends per stream context.
 type streamObs struct {
-	mu       sync.Mutex
-	started  int64
-	finished int64
-	aband    int64
-	doubleEnd []string
+	mu         sync.Mutex
+	started    int64
+	finished   int64
+	aband      int64
+	doubleEnd  []string
 	endNoStart int64
-	open     map[*streamCtx]bool
+	open       map[*streamCtx]bool
 }
 
 type streamCtx struct {
@@ -157,19 +157,19 @@ func (s *streamCtx) StreamAbandoned(gocql.ObservedStream) { s.end("abandoned") }
 func (s *streamCtx) StreamFinished(gocql.ObservedStream)  { s.end("finished") }
 
 type echoNode struct {
-	cfg      *echoCfg
-	mu       sync.Mutex
-	arrivals map[string]int          // token -> arrivals
-	where    map[string]string       // token -> conn#stream
-	window   map[*fakenode.ServerConn][]*fakenode.Req
-	never    []*fakenode.Req
-	answered map[*fakenode.ServerConn]int
-	late     map[string]time.Time // conn#stream -> when the late answer was written
+	cfg           *echoCfg
+	mu            sync.Mutex
+	arrivals      map[string]int    // token -> arrivals
+	where         map[string]string // token -> conn#stream
+	window        map[*fakenode.ServerConn][]*fakenode.Req
+	never         []*fakenode.Req
+	answered      map[*fakenode.ServerConn]int
+	late          map[string]time.Time // conn#stream -> when the late answer was written
 	lateDelivered int64
 	lateReused    int64
-	closing  int32
-	timers   int64
-	dup      []string
+	closing       int32
+	timers        int64
+	dup           []string
 }
 
 func h32(s string, salt int64) uint32 {
